@@ -74,12 +74,23 @@ Proof.
   - intros (t & v & ->). unfold add_pred, identical. cbn. rewrite !aty_eqb_refl. reflexivity.
 Qed.
 
-(* ---- clone, gostring, hash, keys, set, sort, unique ---- *)
+(* ---- clone, keys, set, sort, unique ---- *)
 Theorem validate_exact_one typs : add_one typs = Ok <-> exists t, typs = [t].
 Proof.
   split.
   - unfold add_one. split_args typs; intros H; try discriminate H. eauto.
   - intros (t & ->). reflexivity.
+Qed.
+
+(* ---- gostring, hash (fixed code): the argument has a type ---- *)
+Theorem validate_exact_one_typed typs :
+  add_one_typed typs = Ok <-> exists t, typs = [t] /\ t <> ABasic KUNil.
+Proof.
+  split.
+  - unfold add_one_typed. split_args typs; intros H; try discriminate H.
+    exists a; split; [reflexivity|]. intros ->. discriminate H.
+  - intros (t & -> & N). unfold add_one_typed; cbn.
+    destruct t as [[]| | | | | | | | | | |]; try reflexivity. congruence.
 Qed.
 
 (* ---- compare, equal ---- *)
@@ -112,12 +123,14 @@ Proof.
   - intros (p1 & p2 & ps & rs & ->). reflexivity.
 Qed.
 
-(* ---- dup ---- *)
-Theorem validate_exact_dup typs : add_dup typs = Ok <-> exists d t, typs = [AChan d t].
+(* ---- dup (fixed code): a channel that can be received from ---- *)
+Theorem validate_exact_dup typs :
+  add_dup typs = Ok <-> exists d t, typs = [AChan d t] /\ d <> DSend.
 Proof.
   split.
-  - unfold add_dup. split_args typs; intros H; try discriminate H. inv_ok H. eauto.
-  - intros (d & t & ->). reflexivity.
+  - unfold add_dup. split_args typs; intros H; try discriminate H.
+    destruct a; try discriminate H. destruct d; try discriminate H; do 2 eexists; split; eauto; discriminate.
+  - intros (d & t & -> & N). destruct d; try reflexivity. congruence.
 Qed.
 
 (* ---- mem (fixed code) ---- *)
@@ -129,9 +142,27 @@ Proof.
   - intros (ps & rs & ->). reflexivity.
 Qed.
 
-(* ---- tuple ---- *)
-Theorem validate_exact_tuple typs : add_tuple typs = Ok <-> typs <> [].
-Proof. unfold add_tuple. destruct typs; cbn; split; congruence. Qed.
+(* ---- tuple (fixed code): at least one argument, none of them the untyped nil ---- *)
+Lemma existsb_unil_false l : existsb is_untyped_nil l = false <-> ~ In (ABasic KUNil) l.
+Proof.
+  induction l as [|t r IH]; cbn; [tauto|].
+  rewrite orb_false_iff, IH. split.
+  - intros [A B] [C|C]; [subst; discriminate A | tauto].
+  - intros N. split; [|tauto].
+    destruct t as [[]| | | | | | | | | | |]; try reflexivity. exfalso; apply N; left; reflexivity.
+Qed.
+Theorem validate_exact_tuple typs :
+  add_tuple typs = Ok <-> typs <> [] /\ ~ In (ABasic KUNil) typs.
+Proof.
+  unfold add_tuple. destruct typs as [|t r]; cbn [length Nat.eqb negb need].
+  - split; [discriminate | intros [N _]; congruence].
+  - rewrite <- existsb_unil_false.
+    assert (E : (match t :: r with [ATuple _] => Ok | _ => need (negb (existsb is_untyped_nil (t :: r))) Ok end) = Ok
+                <-> existsb is_untyped_nil (t :: r) = false).
+    { assert (N : forall b, need (negb b) Ok = Ok <-> b = false) by (intros []; cbn; split; congruence).
+      destruct t; try apply N. destruct r; [cbn; split; reflexivity | apply N]. }
+    rewrite E. split; [intros H; split; [discriminate|exact H] | tauto].
+Qed.
 
 (* ---- uncurry ---- *)
 Theorem validate_exact_uncurry typs :
@@ -197,7 +228,8 @@ Qed.
 (* ---- pipeline ---- *)
 Theorem validate_exact_pipeline typs :
   add_pipeline typs = Ok <->
-  exists a b c d1 d2 v1 v2, typs = [ASig (t1 (a)) (t1 (AChan d1 b)) v1; ASig (t1 (b)) (t1 (AChan d2 c)) v2].
+  exists a b c d1 v1 v2,
+    typs = [ASig (t1 (a)) (t1 (AChan d1 b)) v1; ASig (t1 (b)) (t1 (AChan DRecv c)) v2] /\ d1 <> DSend.
 Proof.
   split.
   - unfold add_pipeline, funcInChanOut. split_args typs; intros H; try discriminate H.
@@ -205,13 +237,15 @@ Proof.
     destruct ps as [|p1 [|p2 ps]]; cbn in H; try discriminate H.
     destruct rs as [|r1 [|r2 rs]]; cbn in H; try discriminate H.
     destruct r1; try discriminate H.
-    destruct b; try discriminate H.
-    destruct ps as [|q1 [|q2 ps]]; cbn in H; try discriminate H.
-    destruct rs as [|s1 [|s2 rs]]; cbn in H; try discriminate H.
-    destruct s1; try discriminate H.
-    inv_ok H. reflect_all. do 7 eexists; reflexivity.
-  - intros (a & b & c & d1 & d2 & v1 & v2 & ->). unfold add_pipeline, identical; cbn.
-    rewrite aty_eqb_refl. reflexivity.
+    destruct d; cbn in H; try discriminate H.
+    all: destruct b; try discriminate H.
+    all: destruct ps as [|q1 [|q2 ps]]; cbn in H; try discriminate H.
+    all: destruct rs as [|s1 [|s2 rs]]; cbn in H; try discriminate H.
+    all: destruct s1; try discriminate H.
+    all: destruct d; cbn in H; try discriminate H.
+    all: inv_ok H; reflect_all; do 6 eexists; (split; [reflexivity|discriminate]).
+  - intros (a & b & c & d1 & v1 & v2 & -> & N). unfold add_pipeline, identical; cbn.
+    destruct d1; try congruence; cbn; rewrite aty_eqb_refl; reflexivity.
 Qed.
 
 (* ---- toerror (fixed code) ---- *)
@@ -237,4 +271,183 @@ Proof.
     destruct (alen rs =? 0) eqn:Z.
     + apply Nat.eqb_eq in Z. apply alen0 in Z; subst; discriminate.
     + apply Nat.eqb_neq in Z. cbn. unfold at_. rewrite (L rs Z), A. reflexivity.
+Qed.
+
+(* ---- fmap (with the fixed channel form) ---- *)
+Lemma fmap_fn1_exact f elem : fmap_fn1 f elem = Ok <-> exists r v, f = ASig (t1 (elem)) (t1 (r)) v.
+Proof.
+  split.
+  - unfold fmap_fn1. intros H. destruct f; try discriminate H.
+    destruct ps as [|p1 [|p2 ps]]; try discriminate H.
+    destruct rs as [|r1 [|r2 rs]]; cbn in H; try discriminate H.
+    all: peel H; try discriminate H. reflect_all. eauto.
+  - intros (r & v & ->). unfold fmap_fn1, identical. cbn. rewrite aty_eqb_refl. reflexivity.
+Qed.
+
+Lemma fmap_errorInOut_exact f g :
+  fmap_errorInOut f g = Ok <->
+  exists e rs v er v', f = ASig (t1 (e)) rs v /\ g = ASig TNil (t2 (e) (er)) v' /\ is_error er = true.
+Proof.
+  split.
+  - unfold fmap_errorInOut. intros H. destruct g; try discriminate H.
+    destruct ps as [|q1 qs]; try discriminate H.
+    destruct rs as [|r1 [|r2 [|r3 rs]]]; cbn in H; try discriminate H.
+    destruct (is_error r2) eqn:E; cbn in H; try discriminate H.
+    destruct f; try discriminate H.
+    destruct ps as [|p1 [|p2 ps]]; cbn in H; try discriminate H.
+    peel H; try discriminate H. reflect_all. do 5 eexists; repeat split; eauto.
+  - intros (e & rs & v & er & v' & -> & -> & E). unfold fmap_errorInOut, identical. cbn.
+    rewrite E. cbn. rewrite aty_eqb_refl. reflexivity.
+Qed.
+
+Theorem validate_exact_fmap typs :
+  add_fmap typs = Ok <->
+  (exists e r v, typs = [ASig (t1 (e)) (t1 (r)) v; ASlice e]) \/
+  (exists k r v, typs = [ASig (t1 (ABasic KInt32)) (t1 (r)) v; ABasic k] /\ default_kind k = KString) \/
+  (exists e rs v er v', typs = [ASig (t1 (e)) rs v; ASig TNil (t2 (e) (er)) v'] /\ is_error er = true) \/
+  (exists e r v d, typs = [ASig (t1 (e)) (t1 (r)) v; AChan d e] /\ d <> DSend).
+Proof.
+  split.
+  - unfold add_fmap. split_args typs; intros H; try discriminate H.
+    destruct b; try discriminate H.
+    + destruct (bkind_eqb (default_kind k) KString) eqn:K; cbn [need] in H; [|discriminate H].
+      apply bkind_eqb_eq in K. apply fmap_fn1_exact in H as (r & v & ->).
+      right; left. do 3 eexists; split; eauto.
+    + apply fmap_fn1_exact in H as (r & v & ->). left. eauto.
+    + apply fmap_errorInOut_exact in H as (e & rs' & v & er & v' & -> & G & E).
+      injection G as -> -> ->. right; right; left. do 5 eexists; split; eauto.
+    + destruct d; cbn [is_send negb need] in H; try discriminate H;
+        apply fmap_fn1_exact in H as (r & v & ->); right; right; right;
+        do 4 eexists; (split; [reflexivity|discriminate]).
+  - intros [(e & r & v & ->)|[(k & r & v & -> & K)|[(e & rs & v & er & v' & -> & E)|(e & r & v & d & -> & N)]]];
+      unfold add_fmap; cbn [length Nat.eqb need idx nth_error].
+    + apply fmap_fn1_exact; eauto.
+    + rewrite K. cbn [bkind_eqb need]. apply fmap_fn1_exact; eauto.
+    + apply fmap_errorInOut_exact. do 5 eexists; repeat split; eauto.
+    + destruct d; try congruence; cbn [is_send negb need]; apply fmap_fn1_exact; eauto.
+Qed.
+
+(* ---- join (with the fixed channel forms) ---- *)
+Lemma anth_last rs : alen rs <> 0 -> anth rs (alen rs - 1) = alast rs.
+Proof.
+  induction rs as [|t r IH]; cbn; [congruence|]. intros _.
+  destruct r as [|u r']; [reflexivity|]. cbn [alen] in *. rewrite <- IH by discriminate.
+  cbn. rewrite Nat.sub_0_r. reflexivity.
+Qed.
+
+(* (func() (T, ..., error), error) *)
+Definition accepted_join_error (a b : aty) : Prop :=
+  exists rs v l, a = ASig TNil rs v /\ is_error b = true /\ alast rs = Some l /\ is_error l = true.
+
+Lemma join_errorType_exact typs :
+  join_errorType typs = Ok <-> exists a b, typs = [a; b] /\ accepted_join_error a b.
+Proof.
+  unfold accepted_join_error. split.
+  - unfold join_errorType. split_args typs; intros H; try discriminate H.
+    destruct a; try discriminate H.
+    destruct (is_error b) eqn:E; cbn [need] in H; [|discriminate H].
+    destruct ps; cbn [alen Nat.eqb need] in H; [|discriminate H].
+    destruct (alen rs =? 0) eqn:Z; cbn [negb need] in H; [discriminate H|].
+    apply Nat.eqb_neq in Z. unfold at_ in H. rewrite (anth_last rs Z) in H.
+    destruct (alast rs) as [l|] eqn:A; [|discriminate H].
+    destruct (is_error l) eqn:EL; cbn [need] in H; [|discriminate H].
+    do 2 eexists; split; [reflexivity|]. do 3 eexists; repeat split; eauto.
+  - intros (a & b & -> & rs & v & l & -> & E & A & EL). unfold join_errorType; cbn.
+    rewrite E. cbn.
+    destruct (alen rs =? 0) eqn:Z.
+    + apply Nat.eqb_eq in Z. apply alen0 in Z; subst; discriminate.
+    + apply Nat.eqb_neq in Z. cbn. unfold at_. rewrite (anth_last rs Z), A, EL. reflexivity.
+Qed.
+
+(* c0, c1, ...: channels over one element type, none of them send only *)
+Lemma join_chans_some_exact typs : forall p,
+  join_chans (Some p) typs = Ok <-> exists ds, typs = map (fun d => AChan d p) ds /\ ~ In DSend ds.
+Proof.
+  induction typs as [|t r IH]; intros p; cbn [join_chans].
+  - split; [intros _; exists []; split; [reflexivity|intros []] | reflexivity].
+  - split.
+    + intros H. destruct t; try discriminate H.
+      destruct (is_send d) eqn:S; cbn [negb need] in H; [discriminate H|].
+      destruct (identical t p) eqn:I; cbn [need] in H; [|discriminate H].
+      apply aty_eqb_eq in I; subst t. apply IH in H as (ds & -> & N).
+      exists (d :: ds). split; [reflexivity|]. intros [->|C]; [discriminate S|tauto].
+    + intros (ds & E & N). destruct ds as [|d ds]; [discriminate E|]. cbn in E. injection E as -> ->.
+      assert (S : is_send d = false) by (destruct d; try reflexivity; exfalso; apply N; left; reflexivity).
+      rewrite S. cbn [negb need]. unfold identical. rewrite aty_eqb_refl. cbn [need].
+      apply IH. exists ds. split; [reflexivity|]. intros C; apply N; right; exact C.
+Qed.
+
+Lemma join_chans_none_exact d e r :
+  join_chans None (AChan d e :: r) = Ok <->
+  exists ds, AChan d e :: r = map (fun d => AChan d e) ds /\ ~ In DSend ds.
+Proof.
+  cbn [join_chans]. split.
+  - intros H. destruct (is_send d) eqn:S; cbn [negb need] in H; [discriminate H|].
+    apply join_chans_some_exact in H as (ds & -> & N).
+    exists (d :: ds). split; [reflexivity|]. intros [->|C]; [discriminate S|tauto].
+  - intros (ds & E & N). destruct ds as [|d' ds]; [discriminate E|]. cbn in E. injection E as E1 E2. subst d' r.
+    assert (S : is_send d = false) by (destruct d; try reflexivity; exfalso; apply N; left; reflexivity).
+    rewrite S. cbn [negb need]. apply join_chans_some_exact.
+    exists ds. split; [reflexivity|]. intros C; apply N; right; exact C.
+Qed.
+
+Definition not_chan (e : aty) : Prop := forall d t, e <> AChan d t.
+
+Definition accepted_join (typs : list aty) : Prop :=
+  (exists t, typs = [ASlice (ASlice t)]) \/
+  typs = [ASlice (ABasic KString)] \/
+  (exists d t, typs = [ASlice (AChan d t)] /\ d <> DSend) \/
+  (exists a b, (typs = [a; b] \/ exists r, typs = ATuple (t2 (a) (b)) :: r) /\ accepted_join_error a b) \/
+  (exists d t, typs = [AChan d (AChan DRecv t)] /\ d <> DSend) \/
+  (exists e ds, typs = map (fun d => AChan d e) ds /\ 2 <= length ds /\ ~ In DSend ds /\ not_chan e).
+
+Theorem validate_exact_join typs : add_join typs = Ok <-> accepted_join typs.
+Proof.
+  unfold accepted_join. split.
+  - unfold add_join. destruct typs as [|a r]; cbn [length Nat.eqb negb need idx nth_error]; [discriminate|].
+    intros H. destruct a; try discriminate H.
+    + (* slice *)
+      destruct a; try discriminate H;
+        destruct r; cbn [length Nat.eqb need] in H; try discriminate H.
+      * destruct (bkind_eqb k KString) eqn:K; [|discriminate H]. apply bkind_eqb_eq in K; subst. tauto.
+      * left; eauto.
+      * destruct d; cbn in H; try discriminate H; right; right; left; do 2 eexists; (split; [reflexivity|discriminate]).
+    + (* function, error *)
+      apply join_errorType_exact in H as (a & b & E & A). right; right; right; left.
+      exists a, b. split; [left; exact E|exact A].
+    + (* channels *)
+      destruct a.
+      9: { destruct r; cbn [length Nat.eqb need] in H; try discriminate H.
+           destruct d; cbn in H; try discriminate H; destruct d0; cbn in H; try discriminate H;
+             right; right; right; right; left; do 2 eexists; (split; [reflexivity|discriminate]). }
+      all: match type of H with need ?c _ = Ok => destruct c eqn:L end; cbn [need] in H; [|discriminate H];
+        apply Nat.leb_le in L;
+        apply join_chans_none_exact in H as (ds & E & N);
+        right; right; right; right; right; do 2 eexists; split; [exact E|];
+        (split; [assert (LL := f_equal (@length aty) E); rewrite map_length in LL;
+                 cbn [length] in LL; rewrite <- LL; exact L|]); (split; [exact N|]);
+        intros ? ?; discriminate.
+    + (* a multi-valued call *)
+      destruct ts as [|x [|y [|z ts]]]; cbn [alen Nat.eqb at_ anth] in H; try discriminate H.
+      unfold at_ in H; cbn [anth] in H.
+      apply join_errorType_exact in H as (a & b & E & A). injection E as -> ->.
+      right; right; right; left. exists a, b. split; [right; eauto|exact A].
+  - intros [(t & ->)|[->|[(d & t & -> & N)|[(a & b & [->|(r & ->)] & A)|[(d & t & -> & N)|(e & ds & -> & L & N & C)]]]]].
+    + reflexivity.
+    + reflexivity.
+    + destruct d; try congruence; reflexivity.
+    + pose proof A as (rs & v & l & -> & _). unfold add_join; cbn [length Nat.eqb negb need idx nth_error].
+      apply join_errorType_exact. eauto.
+    + unfold add_join; cbn [length Nat.eqb negb need idx nth_error alen at_ anth].
+      apply join_errorType_exact. eauto.
+    + destruct d; try congruence; reflexivity.
+    + destruct ds as [|d ds]; [cbn in L; lia|]. cbn [map].
+      unfold add_join; cbn [length Nat.eqb negb need idx nth_error].
+      assert (G : (2 <=? length (AChan d e :: map (fun d => AChan d e) ds)) = true).
+      { apply Nat.leb_le. cbn [length] in *. rewrite map_length. exact L. }
+      assert (J : join_chans None (AChan d e :: map (fun d => AChan d e) ds) = Ok).
+      { apply join_chans_none_exact. exists (d :: ds). split; [reflexivity|exact N]. }
+      cbn [length] in G.
+      destruct e; try (rewrite G; cbn [need]; exact J).
+      exfalso. eapply C. reflexivity.
 Qed.
